@@ -11,6 +11,7 @@ def errName : Err → String
   | .indexError => "IndexError"
   | .assertion => "RallyAssertionError"
   | .noPartition => "IndexError"
+  | .percentCompletedZeroDivision => "ZeroDivisionError:percent_completed"
 
 def getRatList (j : Json) (k : String) : Except String (List Rat) := do
   let a ← j.getObjValAs? (Array String) k
@@ -212,6 +213,32 @@ def handle (op : String) (a : Json) : Except String Json := do
                                ("total_bulks", toJson p.totalBulks),
                                ("current_bulk", toJson p.currentBulk),
                                ("cnt", cntJson p.cnt)]) tags
+  | "group" =>
+    -- the co-located clients of one task as TaskAllocations [client_index_in_task, task.clients, total_clients, global index]
+    let cfg ← getCfg a
+    let corpora ← getCorpora a
+    let o ← getOracle a
+    let rows ← getArr a "entries"
+    let entries ← rows.mapM fun r => do
+      let xs ← r.getArr?
+      match xs.toList with
+      | [i, c, t, g] => do
+        let i ← i.getNat?; let c ← c.getNat?; let t ← t.getNat?; let g ← g.getNat?
+        pure (Alloc.Entry.task ⟨0, c, false, false⟩ i g t)
+      | _ => throw "bad entry"
+    let calls ← getNatList a "calls"
+    match partitionEntries entries (PState.init : PState Nat) with
+    | .error e => return err (errName e)
+    | .ok p0 =>
+      match runCalls o cfg corpora calls p0 [] with
+      | .error e => return err (errName e)
+      | .ok (out, stopped, p) =>
+        return ok (Json.mkObj [("out", arr (out.map fun cb => arr [toJson cb.1, bulkJson cb.2])),
+                               ("stopped", arr (stopped.map toJson)),
+                               ("total_bulks", toJson p.totalBulks),
+                               ("current_bulk", toJson p.currentBulk)])
+          [if out.isEmpty then "no-bulks" else "bulks",
+           if entries.any (fun en => match en with | .task s _ _ t => s.clients != t | _ => false) then "inside-parallel" else "own-element"]
   | "table" =>
     let bs ← getBytes a "bytes"; let every ← getNat a "every"
     let r := prepareOffsetTable every bs
